@@ -99,3 +99,119 @@ fn u_parse_string_raw_borrowed_n8() {
     core::mem::forget(r);
     core::mem::forget(scratch);
 }
+
+/// C09/C02 B-parse_string_raw (borrowed, block path): 40-byte buffer after the opening quote,
+/// 8-byte symbolic window at 28..36 without a backslash, closing quote at 38.
+#[kani::proof]
+#[kani::unwind(4)]
+#[kani::stub(crate::error::Error::syntax, crate::error::verif_kani_error::syntax_cut)]
+#[kani::stub(core::arch::x86_64::_mm_max_epu8, crate::verif_kmodels::mm_max_epu8)]
+#[kani::stub(Parser::parse_string_escaped, cut_parse_string_escaped)]
+fn b_parse_string_raw_borrowed_w28() {
+    const N: usize = 40;
+    let w: [u8; 8] = kani::any();
+    let mut buf = [b'x'; N];
+    let mut k = 0;
+    while k < 8 {
+        kani::assume(w[k] != b'\\');
+        buf[28 + k] = w[k];
+        k += 1;
+    }
+    buf[38] = b'"';
+    let mut scratch: Vec<u8> = Vec::new();
+    let mut p = mk(&buf[..]);
+    let r = p.parse_string_raw(&mut scratch);
+    let expect = ref_string_end(&buf, N, 0);
+    match (&r, expect) {
+        (Ok(ParsedSlice::Borrowed { slice, .. }), Some(end)) => {
+            assert_eq!(p.read.index(), end);
+            assert_eq!(slice.len(), end - 1);
+            assert_eq!(slice.as_ptr(), buf.as_ptr());
+        }
+        (Err(_), None) => {}
+        _ => panic!("parse_string_raw (block path) differs from the string grammar"),
+    }
+    kani::cover!(r.is_ok() && p.read.index() == 39);
+    kani::cover!(r.is_ok() && p.read.index() == 33);
+    kani::cover!(r.is_err() && buf[32] < 0x20);
+    core::mem::forget(r);
+    core::mem::forget(scratch);
+}
+
+// ---- U-parse_str (copying decoder, escape branch) -------------------------------------------------
+//
+// The scratch Vec is pre-sized and its growing operations are replaced by models that assert the
+// capacity suffices and write in place (heap growth with a symbolic length is what made the
+// round-0 probes run away). What is decided is the decoder's own logic: which bytes it writes,
+// where it stops, what it rejects.
+
+fn vec_reserve_model<T, A: std::alloc::Allocator>(v: &mut Vec<T, A>, additional: usize) {
+    assert!(v.capacity() - v.len() >= additional, "scratch capacity exceeded in the harness");
+}
+
+fn vec_push_model<T, A: std::alloc::Allocator>(v: &mut Vec<T, A>, value: T) {
+    assert!(v.len() < v.capacity(), "scratch capacity exceeded in the harness");
+    unsafe {
+        let l = v.len();
+        core::ptr::write(v.as_mut_ptr().add(l), value);
+        v.set_len(l + 1);
+    }
+}
+
+fn vec_extend_from_slice_model<T: Clone, A: std::alloc::Allocator>(v: &mut Vec<T, A>, other: &[T]) {
+    assert!(v.capacity() - v.len() >= other.len(), "scratch capacity exceeded in the harness");
+    let mut i = 0;
+    while i < other.len() {
+        unsafe {
+            let l = v.len();
+            core::ptr::write(v.as_mut_ptr().add(l), other[i].clone());
+            v.set_len(l + 1);
+        }
+        i += 1;
+    }
+}
+
+/// C09/C02 U-parse_str: for every byte string of length <= N after the opening quote, strict mode,
+/// the borrow-or-copy decoder accepts iff the literal is well formed with every `\u` escape
+/// denoting a scalar (surrogates paired), returns it borrowed iff it has no escape, and the
+/// decoded bytes equal the reference decoding.
+fn parse_str_body<const N: usize>() {
+    let buf: [u8; N] = kani::any();
+    let n: usize = kani::any();
+    kani::assume(n <= N);
+    let mut scratch: Vec<u8> = Vec::with_capacity(64);
+    let mut out = [0u8; 16];
+    let expect = ref_decode_string(&buf, n, 0, false, &mut out);
+    let mut p = mk(&buf[..n]);
+    let r = p.parse_str(&mut scratch);
+    match (&r, expect) {
+        (Ok(s), Some((end, len))) => {
+            assert_eq!(p.read.index(), end);
+            assert_eq!(s.len(), len);
+            let borrowed = matches!(s, Reference::Borrowed(_));
+            assert_eq!(borrowed, !ref_has_backslash(&buf, 0, end));
+            let i: usize = kani::any();
+            kani::assume(i < len);
+            assert_eq!(s.as_bytes()[i], out[i]);
+        }
+        (Err(_), None) => {}
+        _ => panic!("parse_str: accept/reject differs from the reference decoder"),
+    }
+    kani::cover!(matches!(&r, Ok(Reference::Copied(s)) if s.len() == 1) && n == N);
+    kani::cover!(matches!(&r, Ok(Reference::Copied(s)) if s.len() == 3));
+    kani::cover!(matches!(&r, Ok(Reference::Borrowed(_))) && n == N);
+    kani::cover!(r.is_err() && n == N && buf[0] == b'\\');
+    core::mem::forget(r);
+    core::mem::forget(scratch);
+}
+
+#[kani::proof]
+#[kani::unwind(4)]
+#[kani::stub(crate::error::Error::syntax, crate::error::verif_kani_error::syntax_cut)]
+#[kani::stub(core::arch::x86_64::_mm_max_epu8, crate::verif_kmodels::mm_max_epu8)]
+#[kani::stub(alloc::vec::Vec::reserve, vec_reserve_model)]
+#[kani::stub(alloc::vec::Vec::push, vec_push_model)]
+#[kani::stub(alloc::vec::Vec::extend_from_slice, vec_extend_from_slice_model)]
+fn u_parse_str_n7() {
+    parse_str_body::<7>();
+}
